@@ -28,6 +28,9 @@ func init() {
 				}
 			}
 			r = append(r, Oblig{Harness: "vh_import_body", Unroll: 12}, Oblig{Harness: "vh_import_cycle", Unroll: 12})
+			for shape := 0; shape <= 2; shape++ {
+				r = append(r, Oblig{Harness: "vh_import_subroot", Unroll: 12, Globals: map[string]int{"vhSubShape": shape}})
+			}
 			return r
 		},
 		Bounds:      []string{"importer directory: 0..2 (thorough 3) words below GOPATH/src, each any word of 1..6 letters (so also 'vendor')", "import path: 1..2 words", "directory tree: an uninterpreted predicate isdir(path), prefix-closed on the paths in play", "GOPATH fixed to /g, separator '/'", "importSrc body on a two-file package: every combination of stage failures; second import; import in progress", "relative imports ./x and ../x from the main file or from a package one or two levels below it; main file in <d1>/<d2>/main.go"},
